@@ -159,3 +159,31 @@ func heartbeatIndependentOfWrites(c *Ctx, rule string) {
 	}
 	c.Ob(rule, "eio.serverSocket.pingPong/timer-armed-before-a-blocking-send", pos, !bad, "pingPong sends the PING synchronously and only then arms time.After(pingTimeout): over websocket the write waits for the write lock of the application's stalled write (a peer that stopped reading in the middle of a burst), so the timer is never armed — no ping timeout, no OnClose, the session stays for ever; and transport.Close(), called before OnClose, runs the websocket close handshake that waits 5 s for a silent peer, so a dead peer is reported after pingInterval + pingTimeout + 5 s")
 }
+
+// F67 (C15-D9): a reconnection cycle that is given up leaves the 'reconnecting' state.
+func abandonedReconnectLeavesState(c *Ctx, rule string) {
+	p := c.P
+	fn := p.Fn("sio", "Manager.reconnect")
+	recon := p.ConstVal("sio", "clientConnStateReconnecting")
+	disc := p.ConstVal("sio", "clientConnStateDisconnected")
+	is := func(v ssa.Value, k string) bool { t := Term(v); return t == k || strings.HasPrefix(t, k+":") }
+	sv := p.Field("sio", "Manager", "state")
+	var set ssa.Instruction
+	for _, st := range findInstrs(fn, fieldStorePred(sv)) {
+		if is(st.(*ssa.Store).Val, recon) {
+			set = st
+		}
+	}
+	if set == nil {
+		c.Undecided("%s: Manager.reconnect never stores the reconnecting state", rule)
+		return
+	}
+	leaves := func(in ssa.Instruction) bool {
+		if st, ok := in.(*ssa.Store); ok && fieldStorePred(sv)(in) && is(st.Val, disc) {
+			return true
+		}
+		return callPred(`\(\*sio\.Manager\)\.(connect|onReconnect|abortReconnect)`)(in)
+	}
+	skip, trail := CanReachExitAvoiding(fn, set, leaves)
+	c.Ob(rule, "sio.Manager.reconnect/abandoned-cycle-leaves-reconnecting", set.Pos(), !skip, "after `state = reconnecting` a path returns without setting the state back and without attempting to connect (the `skipReconnect` exits): a manager closed while a reconnection attempt is in flight stays 'reconnecting' for ever, and clientSocket.Connect does not open a manager that claims to be reconnecting — the socket can never be connected again: "+trailString(p, trail))
+}
